@@ -58,11 +58,12 @@ class C11(Prop):
                 acts.append(("probe", "record", "pause", "nested-scope", "nested-stream", "spawn")[s.weighted((8, 4, 6, 2, 2, 1), "act")])
             steps.append(acts)
         gen_raises = profile == "faults" and s.chance(1, 3, "gen-raises")
+        gen_raise_kind = s.weighted((3, 1, 1), "gen-raise-kind") if gen_raises else 0  # plain, group of one, immutable instance
         cancel_consumer = profile == "faults" and not gen_raises and s.chance(1, 2, "cancel-consumer")
         break_after = s.draw(max(1, n_items), "break-after") if end.startswith("break") else None
         # a second, simple stream created in the same scope and consumed before or after the first one
         pre_cancelled = (not cancel_consumer) and s.chance(1, 6, "pre-cancelled")
-        source_kind = s.weighted((4, 1, 1), "source-kind")  # plain async generator function, functools.partial, callable instance
+        source_kind = s.weighted((4, 1, 1, 1), "source-kind")  # plain async generator function, functools.partial, callable instance, decorated (__wrapped__)
         second = (mode in ("same-scope", "outside-scope") and end == "exhaust" and not cancel_consumer
                   and s.chance(1, 3, "second-stream"))
         second_first = bool(second and s.draw(2, "second-first"))
@@ -76,7 +77,7 @@ class C11(Prop):
         sim.program = {"mode": mode, "end": end, "items": n_items, "item_kinds": item_kinds, "steps": steps, "gen_raises": gen_raises,
                        "cancel_consumer": cancel_consumer, "break_after": break_after, "second_stream": int(second),
                        "second_consumed_first": int(second_first), "created_in_nested_scope_left_before_consumption": depth - 1, "consumer_swallowed_a_cancel_before": int(pre_cancelled),
-                       "source": ("function", "functools.partial", "callable instance")[source_kind]}
+                       "source": ("function", "functools.partial", "callable instance", "decorated with functools.wraps")[source_kind]}
         if mode != "same-scope" or end in ("break-drop", "never-started") or gen_raises or cancel_consumer:
             sim.nontrivial = True
 
@@ -86,7 +87,15 @@ class C11(Prop):
         a2_state = make_state(0, 5)
         created_state = a2_state if depth == 2 else a_state
         r2_extra = {"created": "nested-scope"} if depth == 2 and mode == "same-scope" else {}
-        gen_exc = Injected("gen")
+        class FrozenError(Exception):
+            """An exception instance that forbids attribute assignment (like a frozen dataclass exception)."""
+            __slots__ = ()
+
+            def __setattr__(self, name, value):
+                raise AttributeError(f"cannot assign to field {name!r}")
+
+        gen_exc = (Injected("gen"), ExceptionGroup("several", [Injected("gen")]), FrozenError("gen"))[gen_raise_kind]
+        sim.program["gen_raise_kind"] = ("plain", "ExceptionGroup of one", "immutable instance")[gen_raise_kind]
         rec_values = []
         nested_values = []
         spawned = []
@@ -327,6 +336,13 @@ class C11(Prop):
                 if source_kind == 1:
                     import functools
                     holder["stream"] = ctx.stream(functools.partial(gen, "tag"))
+                elif source_kind == 3:
+                    import functools
+
+                    @functools.wraps(gen)
+                    def decorated():  # the decorator supplies the argument: unwrapping it would call gen() without one
+                        return gen("tag")
+                    holder["stream"] = ctx.stream(decorated)
                 elif source_kind == 2:
                     class Source:
                         def __call__(self, tag):
